@@ -397,9 +397,12 @@ EDIT_KINDS = ["salt", "var_value", "var_list", "default_env", "dep_add", "dep_re
 
 CONTENT_EDITS = ["src_modify", "src_modify", "src_add", "src_delete"]
 
-def gen_edit(rng, model, history, kinds=None):
-    """Return an edit (JSON-able) applicable to model, or None."""
+def gen_edit(rng, model, history, kinds=None, value_pool=None):
+    """Return an edit (JSON-able) applicable to model, or None.  With a
+    value_pool, variable values are drawn from it so that variants recur."""
     names = model["order"]
+    def val(prefix):
+        return rng.choice(value_pool) if value_pool else "%s%d" % (prefix, rng.randrange(1000))
     for _ in range(30):
         kind = rng.choice(kinds or EDIT_KINDS)
         r_name = rng.choice(names)
@@ -413,7 +416,7 @@ def gen_edit(rng, model, history, kinds=None):
             return {"kind": "salt", "recipe": r_name, "step": step, "value": "%x" % rng.getrandbits(24)}
         if kind == "var_value" and r["environment"]:
             v = rng.choice(sorted(r["environment"]))
-            return {"kind": "var_value", "recipe": r_name, "var": v, "value": "n%d" % rng.randrange(1000)}
+            return {"kind": "var_value", "recipe": r_name, "var": v, "value": val("n")}
         if kind == "var_list":
             lst = rng.choice(["buildVars", "packageVars", "buildVarsWeak"] + (["checkoutVars"] if r["src"] == "script" else []))
             v = rng.choice(VARPOOL)
@@ -433,7 +436,7 @@ def gen_edit(rng, model, history, kinds=None):
         if kind == "dep_env" and r["depends"]:
             i = rng.randrange(len(r["depends"]))
             return {"kind": "dep_env", "recipe": r_name, "index": i, "var": rng.choice(VARPOOL),
-                    "value": rng.choice([None, "de%d" % rng.randrange(1000)])}
+                    "value": rng.choice([None, val("de"), val("de")])}
         if kind == "provide_var" and r_name != "root":
             return {"kind": "provide_var", "recipe": r_name, "var": rng.choice(VARPOOL),
                     "value": rng.choice([None, "pp%d" % rng.randrange(1000)])}
